@@ -153,7 +153,7 @@ PROPS = {
         "assumptions": ["compile-time features are covered by two binaries, not by a theorem"],
     },
     "C20": {
-        "coq_deps": ["ManagerFacts", "DirFacts"],
+        "coq_deps": ["ManagerFacts", "DirFacts", "DirRefine", "LookupComplete", "HistEnd", "TombHist"],
         "steps": [{"sub": "c20", "quick": [0], "thorough": [1], "timeout": 3000},
                   {"sub": "dirs", "quick": [0], "thorough": [1]}],
         "rule": "histories with a label updated in every epoch; tombstone cut-off at every epoch 0..current on a copy of the storage: epoch hash, audit proof, other labels' lookup and history proofs and (cut-off before the latest update) the label's own lookup must be structurally identical; the label's history must verify with AllowMissingValues to the same versions/epochs with tombstoned values empty, Default must reject exactly when the requested range (Complete, MostRecent 1/2/n) includes a tombstoned entry; publish-after-tombstone must equal tombstone-after-publish (database compared); the model's d_tombstone is tied by the dirs step (state, history proofs, both verification modes, further publish)",
@@ -329,7 +329,7 @@ PROPS = {
         "assumptions": ["compile-time features are covered by two binaries, not by a theorem"],
     },
     "C20": {
-        "coq_deps": ["ManagerFacts", "DirFacts"],
+        "coq_deps": ["ManagerFacts", "DirFacts", "DirRefine", "LookupComplete", "HistEnd", "TombHist"],
         "steps": [{"sub": "c20", "quick": [0], "thorough": [1], "timeout": 3000},
                   {"sub": "dirs", "quick": [0], "thorough": [1]}],
         "rule": "histories with a label updated in every epoch; tombstone cut-off at every epoch 0..current on a copy of the storage: epoch hash, audit proof, other labels' lookup and history proofs and (cut-off before the latest update) the label's own lookup must be structurally identical; the label's history must verify with AllowMissingValues to the same versions/epochs with tombstoned values empty, Default must reject exactly when the requested range (Complete, MostRecent 1/2/n) includes a tombstoned entry; publish-after-tombstone must equal tombstone-after-publish (database compared); the model's d_tombstone is tied by the dirs step (state, history proofs, both verification modes, further publish)",
